@@ -126,7 +126,7 @@ bool cjet_is_text_valid(struct cjet_utf8_checker *c, const char *text, size_t le
 {
 	bool ret = true;
 	for (size_t i = 0; i < length; i++) VERIF_LOOP(VERIF_U8_LOOP(c, i, length, ret, 1)) {
-		VERIF_GHOST(VERIF_U8_GHOST_BYTE(*(text + i));)
+		VERIF_GHOST(VERIF_U8_GHOST_BYTE();)
 		ret = is_byte_valid(c, (uint8_t) *(text + i));
 		if (ret == false) return false;
 	}
@@ -140,7 +140,7 @@ bool cjet_is_byte_sequence_valid(struct cjet_utf8_checker *c, const uint8_t *seq
 {
 	bool ret = true;
 	for (size_t i = 0; i < length; i++) VERIF_LOOP(VERIF_U8_LOOP(c, i, length, ret, 1)) {
-		VERIF_GHOST(VERIF_U8_GHOST_BYTE(*(sequence + i));)
+		VERIF_GHOST(VERIF_U8_GHOST_BYTE();)
 		ret = is_byte_valid(c, *(sequence + i));
 		if (ret == false) return false;
 	}
@@ -158,7 +158,7 @@ bool cjet_is_word_sequence_valid(struct cjet_utf8_checker *c, const uint32_t *se
 	bool ret = true;
 	uint32_t tmp = 0x0;
 	for (size_t i = 0; i < length; i++) VERIF_LOOP(VERIF_U8_WORD_LOOP(c, i, length, ret, tmp, 4)) {
-		VERIF_GHOST(VERIF_U8_GHOST_ITEM(sequence + i, 4);)
+		VERIF_GHOST(VERIF_U8_GHOST_ITEM(4);)
 		tmp = *(sequence + i);
 		if (c->next_byte == 1) {
 			if (!(tmp & FAST_ZONE1)) continue;
@@ -189,7 +189,7 @@ bool cjet_is_word64_sequence_valid(struct cjet_utf8_checker *c, const uint64_t *
 	bool ret = true;
 	uint64_t tmp = 0x0;
 	for (size_t i = 0; i < length; i++) VERIF_LOOP(VERIF_U8_WORD_LOOP(c, i, length, ret, tmp, 8)) {
-		VERIF_GHOST(VERIF_U8_GHOST_ITEM(sequence + i, 8);)
+		VERIF_GHOST(VERIF_U8_GHOST_ITEM(8);)
 		tmp = *(sequence + i);
 		if (c->next_byte == 1) {
 			if (!(tmp & FAST_ZONE1_64)) continue;
